@@ -68,7 +68,7 @@ def h_sites(exclude=()):
         stubs.UuidProxy.LOG = []
         stubs.HexRecorder.LOG = []
         v = chx.sym_str("vendor", 3)
-        c = chx.sym_str("class", 3)
+        c = chx.sym_str("klass", 3)
         # 1. manifest description forms
         cid_m = MF.SuitUUID.from_obj({"RFC4122_UUID": {"namespace": v, "name": c}}).to_obj()["raw"]
         vid_m = MF.SuitUUID.from_obj({"RFC4122_UUID": v}).to_obj()["raw"]
@@ -270,10 +270,14 @@ def v_sites():
     d = tempfile.mkdtemp(prefix="verif-c13-")
     try:
         for v, c in (("nordicsemi.com", "nRF54H20_sample_root"), ("", ""), ("é", "ß" * 40), ("a" * 300, "x")):
-            cid_m, vid_m, cid_p, vid_p, cid_s, vid_s, st = _real_three(v, c, d)
+            n += 1
+            try:
+                cid_m, vid_m, cid_p, vid_p, cid_s, vid_s, st = _real_three(v, c, d)
+            except Exception as e:  # noqa
+                bad.append((v[:10], c[:10], type(e).__name__))
+                continue
             vid = real_uuid.uuid5(real_uuid.NAMESPACE_DNS, v)
             cid = real_uuid.uuid5(vid, c)
-            n += 1
             if not (cid_m == cid_p == cid_s == cid.bytes and vid_m == vid_p == vid_s == vid.bytes):
                 bad.append((v[:10], c[:10]))
     finally:
